@@ -297,9 +297,96 @@ def case_scan(case):
     return out, ("scan", n > 0)
 
 
+#: calls that change the interval and/or switch the plateau search in one
+#: fit_model call; keywords are listed (and passed) in this order
+SWITCH_CALLS = {
+    "A": [["optimal_fit_edelta", True], ["optimal_fit_num_samples", 7],
+          ["range_x", [-5e-7, 5e-7]]],
+    "B1": [["range_x", [-2e-7, 5e-7]], ["optimal_fit_edelta", False]],
+    "B2": [["optimal_fit_edelta", False], ["range_x", [-2e-7, 5e-7]]],
+    "C": [["range_x", [-5e-7, 3e-7]]],
+    "D1": [["range_x", [-3.5e-7, 5e-7]], ["optimal_fit_edelta", True]],
+    "D2": [["optimal_fit_edelta", True], ["range_x", [-3.5e-7, 5e-7]]],
+    "E": [["range_x", [-6e-7, 6e-7]], ["optimal_fit_edelta", False],
+          ["range_type", "absolute"]],
+}
+
+
+def case_switch(case):
+    """a history of fit_model calls, each giving several settings at once:
+    after every call the fitted points are those of the interval given
+    last (plateau search off), or [optimal depth, upper bound given last]
+    (plateau search on)"""
+    out = []
+    idnt, mk = make(case["curve"])
+    idnt.apply_preprocessing(["compute_tip_position"])
+    x0 = np.asarray(idnt["tip position"], dtype=float)
+    idnt["tip position"] = x0 - CP
+    x, s = seg_x(idnt, 0)
+    want_rng, want_plateau = [0, 0], False
+    idnt.fit_model(model_key=mk, segment=0, weight_cp=0,
+                   range_type="absolute")
+    nfit = 0
+    for step, cid in enumerate(case["calls"]):
+        sub = dict(case, upto=step)
+        kw = {k: v for k, v in SWITCH_CALLS[cid]}     # insertion order
+        for k, v in SWITCH_CALLS[cid]:
+            if k == "range_x":
+                want_rng = list(v)
+            elif k == "optimal_fit_edelta":
+                want_plateau = v
+        wit = "->".join(case["calls"][:step + 1])
+
+        def viol(clause, detail):
+            out.append(V(PROP, clause, site="call-history", witness=wit,
+                         detail=detail, case=sub, kind="switch"))
+        try:
+            idnt.fit_model(**kw)
+        except BaseException as e:
+            if isinstance(e, (KeyboardInterrupt, SystemExit, MemoryError)):
+                raise
+            viol("fit-raises", repr(e))
+            break
+        fp = idnt.fit_properties
+        if not fp.get("success"):
+            viol("mask-absolute", "unsuccessful fit")
+            break
+        nfit += 1
+        rng = np.asarray(idnt["fit range"]).astype(bool)
+        lo, hi = min(want_rng), max(want_rng)
+        if want_plateau:
+            dopt = fp.get("optimal_fit_delta")
+            mask = s & (x >= dopt) & (x <= hi) if dopt is not None else None
+            clause = "plateau-bound"
+        else:
+            mask = s & (x >= lo) & (x <= hi)
+            clause = "mask-absolute"
+        if mask is None or not np.array_equal(rng, mask):
+            viol(clause, f"after the calls {wit} (interval given last "
+                 f"{want_rng}, plateau search {want_plateau}) the fitted "
+                 f"points are {int(rng.sum())}, x in "
+                 f"[{x[rng].min() if rng.any() else None!r}, "
+                 f"{x[rng].max() if rng.any() else None!r}]; expected "
+                 f"{None if mask is None else int(mask.sum())} points")
+            break
+        for key, ref in (("xmin", x[mask].min()), ("xmax", x[mask].max())):
+            if not abs(fp[key] - ref) <= 4 * np.spacing(abs(ref)):
+                viol("xmin-xmax", f"{key}={fp[key]!r}, extreme abscissa of "
+                     f"the used points {ref!r}")
+    return out, ("switch", nfit)
+
+
 def cases(tier):
     cs = []
     ks = [1.0, 0.5]
+    for curve in ("para", "cone"):
+        ids = sorted(SWITCH_CALLS)
+        for n in (1, 2, 3):
+            if n == 3 and (tier == "quick" and curve == "cone"):
+                continue
+            for seq in itertools.product(ids, repeat=n):
+                cs.append({"kind": "switch", "curve": curve,
+                           "calls": list(seq)})
     import itertools as _it
     hows = [("set", 7), ("set", 12), ("fit", 9), ("fit-plateau", 8),
             ("plateau-off", None), ("fit", 7)]
@@ -335,7 +422,7 @@ def cases(tier):
 
 def case_fn(case):
     return {"abs": case_abs, "rel": case_rel, "plateau": case_plateau,
-            "scan": case_scan}[case["kind"]](case)
+            "scan": case_scan, "switch": case_switch}[case["kind"]](case)
 
 
 def replay(doc):
